@@ -28,10 +28,11 @@ const (
 	TFun
 	TQuote // extra quote level wrapper (''x)
 	TBytes
+	TTagged // user-defined type instance: S = type name, C[0] = user data (ext.go)
 )
 
 func (t Type) String() string {
-	return [...]string{"int", "float", "string", "symbol", "list", "array", "sorted-map", "function", "quote", "bytes"}[t]
+	return [...]string{"int", "float", "string", "symbol", "list", "array", "sorted-map", "function", "quote", "bytes", "tagged-value"}[t]
 }
 
 // V is a value (and, as in any lisp, also program text).
@@ -275,6 +276,8 @@ func canon(b *strings.Builder, v *V, depth int, seen map[*Map]bool) {
 		b.WriteString(fmt.Sprintf("#bytes%v", v.B))
 	case TFun:
 		b.WriteString("#fn")
+	case TTagged:
+		canonTagged(b, v, depth, seen)
 	}
 }
 
@@ -368,6 +371,8 @@ func print1(b *strings.Builder, v *V, onRecord bool) bool {
 			return true
 		}
 		return false
+	case TTagged:
+		return printTagged(b, v)
 	}
 	return true
 }
